@@ -1805,3 +1805,288 @@ def check_C14(ctx):
     ctx.coverage["samples"] = labels[:3] + [f"CGREEN_PER_TEST_TIMEOUT={v!r}" for _, v, _ in meta[:3]]
     ctx.coverage["evaluations"] = len(scens) + len(jobs)
     ctx.coverage["distinct_nontrivial"] = len(scens) + len({v for _, v, _ in meta})
+
+
+# ---- C11: XML reports ------------------------------------------------------------------------------
+XML_REPS = ["xml", "libxml"]
+META = ["<", ">", "&", '"', "'", "&amp;", "&lt;", "]]>", "<!--", "-->", "<a b='c'>", "&#10;", "&#x1;", "<?x ?>"]
+PCT = ["%s", "%d", "%n", "100%", "%%", "%5$s", "%*d", "%", "%x%x%x%x", "%ls", "%.999999d"]
+CTRL = ["\x01", "\x02", "\x08", "\x0b", "\x0c", "\x1b", "\x1f", "\x7f", "\t", "\n", "\r", "\r\n", "\x0e\x0f"]
+NONASCII = ["\xe9", "\xff", "\x80", "\x9f", "\xa0", "\xc3\xa9", "\xe2\x82\xac", "\xf0\x9f\x98\x80", "\xc0\x80", "\xed\xa0\x80", "\xe2\x82", "\xf4\x90\x80\x80", "\xf8\x88\x80\x80\x80", "\xc2\x85", "\xef\xbf\xbe", "\xef\xb7\x90", "\xc2\x80"]
+WORDS = ["Expected", "[x]", "to", "equal", "value", "a", " ", "  ", ":", "=", "0", "foo.c", "/"]
+
+
+def gen_message(rng, cls=None):
+    """A message text (a str carrying bytes 1..255) of a given content class."""
+    cls = cls or rng.choice(["plain", "meta", "pct", "ctrl", "nonascii", "long", "mixed", "mixed"])
+    pool = {"plain": WORDS, "meta": WORDS + META * 2, "pct": WORDS + PCT * 2, "ctrl": WORDS + CTRL * 2, "nonascii": WORDS + NONASCII * 2,
+            "mixed": WORDS + META + PCT + CTRL + NONASCII, "long": WORDS + META + PCT}[cls]
+    n = rng.choice([1, 2, 3, 5, 8, 13])
+    s = "".join(rng.choice(pool) for _ in range(n))
+    if cls == "long":
+        target = rng.choice([95, 99, 100, 101, 990, 996, 997, 998, 999, 1000, 1001, 1005, 1500, 5000])
+        filler = rng.choice(["m", "&", "<", "%", '"', "\xe9"])
+        s = (s + filler * target)[:target - 3] + rng.choice(["&<>", "abc", '"%"', "%s&"])
+    return s or "x"
+
+
+def py_translit_xml(b):
+    out = bytearray()
+    for c in b:
+        if c < 32 and c not in (9, 10, 13): out += b"\\x%02x" % c
+        else: out.append(c)
+    return bytes(out)
+
+
+def ws_norm(s):
+    """XML attribute-value normalisation of literal white space (after line-end normalisation)."""
+    return s.replace("\r\n", " ").replace("\r", " ").replace("\n", " ").replace("\t", " ")
+
+
+def model_xml(lines):
+    return run_model(["xml"], "\n".join(lines) + "\n").split("\n")[:-1]
+
+
+def expected_attr(rep, texts, kind):
+    """{text: (exact decoded str, raw escaped bytes or None)} from the model, for reporter `rep`; kind: 'x' message, 'n' name."""
+    texts = sorted(set(texts))
+    if rep == "xml":
+        outs = model_xml([f"{kind} {t.encode('latin-1').hex() or '-'}" for t in texts])
+        res = {}
+        for t, o in zip(texts, outs):
+            esc, dec, ok = o.split(" ")
+            res[t] = (bytes.fromhex(dec if dec != "-" else "").decode("latin-1"), bytes.fromhex(esc if esc != "-" else ""), ok == "true")
+        return res
+    outs = model_xml([f"l {t.encode('latin-1').hex() or '-'}" for t in texts])
+    return {t: ("".join(chr(int(c)) for c in o.split(" ") if c), None, True) for t, o in zip(texts, outs)}
+
+
+def xml_docs(o):
+    """[(file, root or None, error)] for the per-suite files of a run."""
+    docs = []
+    for fname, data in sorted(o.files.items()):
+        if "Testing/" in fname:
+            continue
+        root, err = parse_xml(data)
+        docs.append((fname, root, err, data))
+    return docs
+
+
+def walk_cases(root):
+    out = []
+
+    def walk(e):
+        if e.tag == "testcase": out.append(e)
+        for c in e.children: walk(c)
+    walk(root)
+    return out
+
+
+def check_C11(ctx):
+    lean_check(ctx)
+    rng = random.Random(ctx.seed * 1000 + 11)
+    bench = Bench(ctx, asan=True)
+    shown = {}
+    ndis = 0
+
+    def viol(key, what, case, facts):
+        if shown.get(key, 0) < 2:
+            shown[key] = shown.get(key, 0) + 1
+            ctx.violation("[C11] " + what, case, found_input=True, facts=facts)
+
+    def crashed(o):
+        return o.timeout or (o.rc is not None and (o.rc < 0 or o.rc in (98, 99))) or "ERROR: AddressSanitizer" in o.stderr or "runtime error" in o.stderr
+
+    def crash_text(o):
+        if o.timeout: return "the run did not terminate (still running after the time allowed)"
+        return f"the run crashed (exit {o.rc}): " + " ".join(l.strip() for l in o.stderr.split("\n") if "ERROR" in l or "runtime error" in l or "SUMMARY" in l)[:240]
+
+    # ---- (A) outcomes: scenarios as in C01-C03 under both XML reporters: one testcase per executed test, children as the model says ----
+    scens = [s for s in small_scope(rng, sizes(ctx, 30, 400))] + [Scen(gen_tree(rng, max_tests=8)) for _ in range(sizes(ctx, 40, 1000))]
+    models = run_model_scenarios([s.text() for s in scens])
+    # the scenarios' own signals (K11 ...) are test behaviour, not the sanitizer's business
+    sig_env = asan_env()
+    sig_env["ASAN_OPTIONS"] += ":handle_segv=0:handle_sigbus=0:handle_abort=0:handle_sigill=0:handle_sigfpe=0"
+    obs = bench.run_many([(s.text(), r) for s in scens for r in XML_REPS], env=sig_env)
+    k = 0
+    for s, m in zip(scens, models):
+        want = []
+        f = e = 0
+        for w in m.out:
+            if w[0] == "failLines": f += int(w[2])
+            elif w[0] == "excLine": e += 1
+            elif w[0] == "testEnd":
+                want.append((w[1].split("/")[-1], f, e, 1 if w[6] == "skipped" else 0)); f = e = 0
+        for rep in XML_REPS:
+            o = obs[k]; k += 1
+            case = f"# reporter: {rep}   harness/scenario_run <file> {rep} <outdir>\n" + s.text()
+            if crashed(o):
+                viol(("crash", rep), f"{rep} reporter: {crash_text(o)}", case, {"crash": True, "rep": rep}); continue
+            if m.halted is not None:
+                continue
+            docs = xml_docs(o)
+            bad = [(f_, err) for f_, _, err, _ in docs if err]
+            if bad:
+                viol(("wf", rep), f"{rep} reporter: {bad[0][0]} is not well-formed XML ({bad[0][1]})", case, {"malformed": True, "rep": rep}); continue
+            got = sorted((c.attrs.get("name", ""), sum(1 for x in c.children if x.tag == "failure"), sum(1 for x in c.children if x.tag == "error"),
+                          sum(1 for x in c.children if x.tag == "skipped")) for _, root, _, _ in docs for c in walk_cases(root))
+            if got != sorted(want):
+                ndis += 1
+                miss = [x for x in sorted(want) if x not in got][:2]; extra = [x for x in got if x not in sorted(want)][:2]
+                fs = facts_of(s, m)
+                viol(("cases", rep), f"{rep} reporter: testcase elements (name, failures, errors, skipped) differ from what ran: expected {miss} got {extra}", case, dict(fs, rep=rep))
+    nA = len(obs)
+
+    # ---- (B) message content, (C) names and file texts ----
+    cases_b = []
+    for i in range(sizes(ctx, 70, 1500)):
+        ntests = rng.choice([1, 1, 2, 3])
+        tests = []
+        for j in range(ntests):
+            msgs = [gen_message(rng) for _ in range(rng.choice([1, 1, 2, 4]))]
+            body = []
+            for msg in msgs:
+                body.append(rng.choice("XY") + msg.encode("latin-1").hex())
+                if rng.random() < 0.3: body.append("P")
+            t = T(f"t{j}", body=body); t.msgs = msgs
+            tests.append(t)
+        sc = Scen(S("top", items=tests), mode=rng.choice(["fork", "fork", "inproc"]))
+        cases_b.append((sc, "messages"))
+    NAMEPOOL = ["a<b", "x&y", 'q"uote', "ap'os", "a>b", "&amp;", "caf\xe9", "caf\xc3\xa9", "eur\xe2\x82\xac", "bad\xff", "bell\x07", "esc\x1b[0m", "p%sct", "%n%n", "n" * 90, "<" * 40, "]]>", "--", "\xc0\x80", "\x01"]
+    for i in range(sizes(ctx, 40, 600)):
+        cnt = iter(range(100))
+        nm = lambda: rng.choice(NAMEPOOL) + str(next(cnt))
+        t1 = T(nm(), body=["Y" + gen_message(rng, "plain").encode("latin-1").hex()]); t1.msgs = None
+        t1.file = rng.choice(["dir/a&b.c", "we<ird>.c", 'q"uote.c', "caf\xe9.c", "f" * 1200 + ".c", "ctrl\x01.c", "100%.c", "plain.c"])
+        t2 = T(nm(), body=["P"]); t2.msgs = None
+        inner = S(nm(), items=[t1])
+        sc = Scen(S(nm(), items=[inner, t2]), mode="fork")
+        cases_b.append((sc, "names"))
+    obs = bench.run_many([(sc.text(), r) for sc, _ in cases_b for r in XML_REPS], env=asan_env(), timeout=20)
+    all_msgs = {m_ for sc, kind in cases_b if kind == "messages" for _, t in sc.root.tests() for m_ in t.msgs}
+    all_names = set()
+    for sc, kind in cases_b:
+        if kind == "names":
+            for su in sc.root.suites(): all_names.add(su.name)
+            for p_, t in sc.root.tests():
+                all_names.add(t.name); all_names.add("-".join(p_[:-1])); all_names.add("/".join(p_[:-1]))
+                if getattr(t, "file", None): all_names.add(t.file)
+    exp = {"xml": (expected_attr("xml", all_msgs, "x"), expected_attr("xml", all_names, "n")),
+           "libxml": (expected_attr("libxml", all_msgs, "x"), expected_attr("libxml", all_names, "n"))}
+    for t_, (dec, esc, ok) in list(exp["xml"][0].items()) + list(exp["xml"][1].items()):
+        if not ok:
+            ctx.oblige("the model's escaped attribute value is well formed (theorem C11_message, executed)", False, repr(t_[:60]))
+    k = 0
+    stats = {"messages": 0, "names": 0, "cut": 0, "ws": 0}
+    for sc, kind in cases_b:
+        for rep in XML_REPS:
+            o = obs[k]; k += 1
+            case = f"# reporter: {rep}   harness/scenario_run <file> {rep} <outdir>   (X<hex>/Y<hex>: a failing check whose message is the hex-coded text)\n" + sc.text()
+            if crashed(o):
+                viol(("crash", rep, kind), f"{rep} reporter, {kind}: {crash_text(o)}", case, {"crash": True, "rep": rep, "kind": kind}); continue
+            docs = xml_docs(o)
+            bad = [(f_, err) for f_, _, err, _ in docs if err]
+            if bad or not docs:
+                viol(("wf", rep, kind), f"{rep} reporter, {kind}: " + (f"{bad[0][0]!r} is not well-formed XML ({bad[0][1]})" if bad else "no report file was written") , case, {"malformed": True, "rep": rep, "kind": kind}); continue
+            tcs = {c.attrs.get("name", ""): c for _, root, _, _ in docs for c in walk_cases(root)}
+            ntc = sum(len(walk_cases(root)) for _, root, _, _ in docs)
+            if ntc != len(list(sc.root.tests())):
+                viol(("count", rep, kind), f"{rep} reporter, {kind}: {ntc} testcase elements for {len(list(sc.root.tests()))} executed tests", case, {"rep": rep, "kind": kind}); continue
+            if kind == "messages":
+                for _, t in sc.root.tests():
+                    c = tcs.get(t.name)
+                    got = [x.attrs.get("message", "") for x in c.children if x.tag == "failure"] if c else None
+                    if got is None or len(got) != len(t.msgs):
+                        viol(("nfail", rep), f"{rep} reporter: test {t.name} has {None if got is None else len(got)} failure elements for {len(t.msgs)} failed checks", case, {"rep": rep}); continue
+                    for msg, g in zip(t.msgs, got):
+                        stats["messages"] += 1
+                        mdec = exp[rep][0][msg][0]
+                        raw = msg.encode("latin-1")
+                        # the property's oracle, independent of the model
+                        if rep == "xml":
+                            full = py_translit_xml(raw).decode("latin-1")
+                        else:
+                            try: full = raw.decode("utf-8")
+                            except UnicodeDecodeError: full = None
+                            if full is not None and any(not (ch in "\t\n\r" or 0x20 <= ord(ch) <= 0x7e or ord(ch) == 0x85 or 0xa0 <= ord(ch) <= 0xd7ff or 0xe000 <= ord(ch) <= 0xfdcf or 0xfdf0 <= ord(ch) <= 0xfffd or (ord(ch) >= 0x10000 and (ord(ch) & 0xffff) <= 0xfffd)) for ch in full):
+                                full = None
+                        good = full is None or g == full or (len(full) > 900 and len(g) >= 900 and full.startswith(g))
+                        if full is not None and g != full and full.startswith(g) and len(g) >= 900: stats["cut"] += 1
+                        if not good and full is not None and rep == "xml" and (g == ws_norm(full) or (len(g) >= 900 and ws_norm(full).startswith(g))):
+                            stats["ws"] += 1
+                            ctx.violation(f"[C11] xml reporter: white space in a message is written literally into the attribute and decodes as blanks: {msg[:40]!r} decodes to {g[:40]!r}",
+                                          case, found_input=True, facts={"ws_normalised": True, "rep": "xml"})
+                            good = True
+                        if not good:
+                            cl = "control" if any(ord(ch) < 32 for ch in msg) else "percent" if "%" in msg else "long" if len(msg) > 900 else "other"
+                            viol(("msg", rep, cl), f"{rep} reporter: a failure message does not decode to the text: text {msg[:80]!r} ({len(msg)} bytes), decoded {g[:80]!r} ({len(g)} characters)", case, {"rep": rep, "msgclass": cl})
+                        # correspondence with the model (exact, including where the plain reporter cuts)
+                        mexp = ws_norm(mdec) if rep == "xml" else mdec
+                        if g != mexp:
+                            ndis += 1
+                            if ndis <= 3: ctx.oblige(f"correspondence C11 ({rep} message)", False, f"text {msg[:60]!r}: model {mexp[:80]!r} impl {g[:80]!r}")
+                        if rep == "xml":
+                            esc = exp["xml"][0][msg][1]
+                            if not any(b'message="' + esc + b'"' in data for _, _, _, data in docs):
+                                ndis += 1
+                                if ndis <= 3: ctx.oblige("correspondence C11 (xml raw attribute bytes)", False, f"text {msg[:60]!r}: the model's escaped bytes {esc[:80]!r} are not in the file")
+            else:
+                stats["names"] += 1
+                for p_, t in sc.root.tests():
+                    wantn = exp[rep][1][t.name][0]
+                    wantc = exp[rep][1]["/".join(p_[:-1])][0]
+                    if rep == "xml": wantn, wantc = ws_norm(wantn), ws_norm(wantc)
+                    c = tcs.get(wantn)
+                    if c is None:
+                        viol(("name", rep), f"{rep} reporter: no testcase element named {wantn[:60]!r} (test name {t.name[:60]!r}); names present: {[n[:30] for n in tcs][:3]}", case, {"rep": rep, "kind": "names"}); continue
+                    if c.attrs.get("classname") != wantc:
+                        viol(("classname", rep), f"{rep} reporter: classname of {t.name[:40]!r} is {c.attrs.get('classname', '')[:60]!r}, the suite path is {wantc[:60]!r}", case, {"rep": rep, "kind": "names"})
+                    if getattr(t, "file", None):
+                        wantf = exp[rep][1][t.file][0]
+                        if rep == "xml": wantf = ws_norm(wantf)
+                        locs = [l.attrs.get("file") for x in c.children if x.tag == "failure" for l in x.children if l.tag == "location"]
+                        if locs != [wantf]:
+                            viol(("file", rep), f"{rep} reporter: the failure's location is {[(l or '')[:60] for l in locs]}, the file text is {wantf[:60]!r} ({len(wantf)} characters)", case, {"rep": rep, "kind": "names"})
+                suites_want = sorted(ws_norm(exp[rep][1]["-".join(p_)][0]) if rep == "xml" else exp[rep][1]["-".join(p_)][0] for p_ in {p_[:-1] for p_, _ in sc.root.tests()})
+                suites_got = sorted(root.attrs.get("name", "") for _, root, _, _ in docs)
+                if suites_want != suites_got:
+                    viol(("suite", rep), f"{rep} reporter: testsuite names {[x[:40] for x in suites_got]} for suites {[x[:40] for x in suites_want]}", case, {"rep": rep, "kind": "names"})
+    nB = len(obs)
+
+    # ---- (D) volume: more tests than file descriptors, more suites than file descriptors, many failures in one test ----
+    vol = []
+    nt = sizes(ctx, 60, 200)
+    vol.append((Scen(S("top", items=[T(f"t{i}", body=["P"] if i % 9 else ["F"]) for i in range(nt)])), 40, f"{nt} tests with 40 file descriptors"))
+    vol.append((Scen(S("top", items=[T(f"t{i}", body=["P"] if i % 9 else ["F"]) for i in range(nt)]), mode="inproc"), 40, f"{nt} tests in one process with 40 file descriptors"))
+    vol.append((Scen(S("top", items=[S(f"s{i}", items=[T(f"t{i}", body=["P"] if i % 9 else ["F"])]) for i in range(nt)])), 40, f"{nt} suites with 40 file descriptors"))
+    for nf in ([19, 20, 21, 25, 100, 600] if ctx.tier == "quick" else [1, 5, 19, 20, 21, 22, 25, 50, 100, 101, 600, 3000]):
+        vol.append((Scen(S("top", items=[T("many", body=["F"] * nf), T("after", body=["P"])])), None, f"{nf} failures in one test"))
+        vol.append((Scen(S("top", items=[T("many", body=["Y" + ("long message " * 12).encode().hex()] * nf), T("after", body=["F"])])), None, f"{nf} failures with 150-byte messages in one test"))
+    vobs = []
+    for nofile in (40, None):
+        idx = [i for i, v in enumerate(vol) if v[1] == nofile]
+        res = bench.run_many([(vol[i][0].text(), r) for i in idx for r in XML_REPS], env=asan_env(), timeout=120, nofile=nofile)
+        vobs += list(zip([(i, r) for i in idx for r in XML_REPS], res))
+    for (i, rep), o in vobs:
+        sc, nofile, lab = vol[i]
+        case = f"# reporter: {rep}" + (f"   run with `ulimit -n {nofile}`" if nofile else "") + f"\n" + (sc.text() if len(sc.text()) < 6000 else sc.text()[:3000] + "\n# ... (" + lab + ")")
+        if crashed(o):
+            viol(("volcrash", rep, lab.split(" ", 1)[1]), f"{rep} reporter, {lab}: {crash_text(o)}", case, {"crash": True, "rep": rep, "volume": lab.split(" ", 1)[1]}); continue
+        docs = xml_docs(o)
+        bad = [(f_, err) for f_, _, err, _ in docs if err]
+        tests = list(sc.root.tests())
+        if bad or not docs:
+            viol(("volwf", rep, lab.split(" ", 1)[1]), f"{rep} reporter, {lab}: " + (f"{bad[0][0]} is not well-formed XML ({bad[0][1]})" if bad else f"no report file (exit {o.rc}: {o.stderr[-160:]!r})"), case, {"malformed": True, "rep": rep, "volume": lab.split(" ", 1)[1]}); continue
+        got = sorted((c.attrs.get("name", ""), sum(1 for x in c.children if x.tag == "failure")) for _, root, _, _ in docs for c in walk_cases(root))
+        want = sorted((t.name, sum(1 for a in t.body if a[0] in "FXY")) for _, t in tests)
+        if got != want:
+            miss = [x for x in want if x not in got][:2]; extra = [x for x in got if x not in want][:2]
+            viol(("volcases", rep, lab.split(" ", 1)[1]), f"{rep} reporter, {lab}: testcase elements (name, failures) differ from what ran: expected {miss} got {extra} ({len(got)} testcases for {len(want)} tests; exit {o.rc}; {o.stderr[-120:]!r})", case, {"rep": rep, "volume": lab.split(" ", 1)[1]})
+        elif status_of(o) != "1":
+            viol(("volstatus", rep), f"{rep} reporter, {lab}: run status {status_of(o)} although tests failed", case, {"rep": rep})
+    ctx.oblige("correspondence C11: the decoded attribute values and the testcase elements of every run are what the model says", ndis == 0, f"{ndis} disagreements")
+    ctx.coverage["correspondence"] = {"cases": nA + nB + len(vobs), "outcome_runs": nA, "content_runs": nB, "volume_runs": len(vobs), "messages_compared": stats["messages"],
+                                      "messages_cut_to_prefix": stats["cut"], "name_scenarios": stats["names"], "disagreements": ndis}
+    ctx.coverage["samples"] = [repr(sorted(all_msgs)[i][:50]) for i in (0, len(all_msgs) // 2, -1)]
+    ctx.coverage["evaluations"] = nA + nB + len(vobs)
+    ctx.coverage["distinct_nontrivial"] = len(scens) + len(all_msgs) + len(all_names) + len(vol)
